@@ -39,7 +39,7 @@ HOWS = ["call", "value", "yielded", "yielded_value"]
 
 
 def plan(tier, seed, build, scale):
-    n = int((96 if tier == "quick" else 2400) * scale)
+    n = int((96 if tier == "quick" else 1200) * scale)
     per = max(1, n // 16) if tier == "quick" else max(1, n // 48)
     units = []
     a = 0
@@ -84,10 +84,18 @@ def run_unit(unit, progress):
         vbad = 0
         for vi, (f, lv) in enumerate(variants):
             if f[0] == "pair":
-                p1 = faults.apply(base, f[1], lv)
-                prog = faults.apply(p1, f[2], 0) if p1 is not None and f[1][0] != f[2][0] or (p1 is not None and f[1][:2] != f[2][:2]) else None
+                if f[1][:2] == f[2][:2]:
+                    continue
+                try:
+                    p1 = faults.apply(base, f[1], lv)
+                    # positions of the second fault refer to the base program; the first mutation may have
+                    # shifted them - then this is simply another (still valid) double fault, or it does not apply
+                    prog = faults.apply(p1, f[2], 0) if p1 is not None else None
+                except (IndexError, KeyError):
+                    prog = None
                 if prog is None:
                     continue
+                inc("fault_pairs_run")
             else:
                 prog = faults.apply(base, f, lv)
                 if prog is None:
